@@ -1378,6 +1378,11 @@ impl StateMachine for FileStateMachine {
         let mut new_data = HashMap::new();
 
         while pos < buffer.len() {
+            // The entries are followed by the lease section (length + data) and carry no count:
+            // the section reads like the start of one more entry that cannot be completed. Go
+            // back to where that entry started so that the lease section is found below.
+            let entry_start = pos;
+
             // Read key length
             if pos + 8 > buffer.len() {
                 break;
@@ -1399,6 +1404,7 @@ impl StateMachine for FileStateMachine {
 
             // Read key
             if pos + key_len > buffer.len() {
+                pos = entry_start;
                 break;
             }
 
@@ -1407,6 +1413,7 @@ impl StateMachine for FileStateMachine {
 
             // Read value length
             if pos + 8 > buffer.len() {
+                pos = entry_start;
                 break;
             }
 
@@ -1426,6 +1433,7 @@ impl StateMachine for FileStateMachine {
 
             // Read value
             if pos + value_len > buffer.len() {
+                pos = entry_start;
                 break;
             }
 
@@ -1434,6 +1442,7 @@ impl StateMachine for FileStateMachine {
 
             // Read term
             if pos + 8 > buffer.len() {
+                pos = entry_start;
                 break;
             }
 
